@@ -31,6 +31,7 @@ const (
 	kList
 	kStruct
 	kOpaque
+	kFunc
 )
 
 type ty struct {
@@ -40,6 +41,7 @@ type ty struct {
 	elem   *ty
 	st     *types.Struct
 	src    types.Type
+	args   []ty // kFunc: parameter types; elem = result type
 }
 
 type lparam struct {
@@ -48,16 +50,23 @@ type lparam struct {
 	path        string // "f.g" for a field of a struct parameter
 	glob        *types.Var
 	order       []int
+	accRoot     types.Type // accessor of an opaque struct value (src == -3): struct type, field path, field type
+	accPath     []string
+	accTy       ty
 }
 
 // Sig describes a translated function.
 type Sig struct {
-	Name   string
-	Params []lparam
-	TVars  []string
-	Res    string // Lean result type without the Option
-	Opt    bool   // can panic
-	NRes   int
+	Name      string
+	Params    []lparam
+	TVars     []string
+	Res       string        // Lean result type without the Option
+	Opt       bool          // can panic (or run out of gas)
+	NRes      int           // declared results followed by the mutated slice parameters
+	NDecl     int           // declared results
+	Muts      []int         // indices (into Params) of slice parameters the function writes to: returned after the results
+	StructRes *types.Struct // the single result is a struct: the Lean result is the tuple of its fields
+	Fuel      bool          // has a leading `gas : Nat` parameter bounding its `for cond {}` loops (none when it runs out)
 }
 
 func (s *Sig) resType() string {
@@ -68,12 +77,13 @@ func (s *Sig) resType() string {
 }
 
 type Unit struct {
-	L      *Loader
-	Ignore []string // callees whose call statements have no effect on results (logging)
-	Panics []string // callees that never return
-	sigs   map[*types.Func]*Sig
-	out    []string
-	names  map[string]bool
+	L       *Loader
+	Ignore  []string // callees whose call statements have no effect on results (logging)
+	Panics  []string // callees that never return
+	Oracles []string // calls (`Recv.Method`, `pkg.Func`) translated as uninterpreted pure functions (extra parameters)
+	sigs    map[*types.Func]*Sig
+	out     []string
+	names   map[string]bool
 }
 
 func New(root string) *Unit {
@@ -114,26 +124,33 @@ type lvar struct {
 }
 
 type fn struct {
-	u       *Unit
-	pi      *pkgInfo
-	obj     *types.Func
-	sig     *Sig
-	names   map[types.Object]string
-	used    map[string]bool
-	scope   []lvar
-	structs map[types.Object]int // struct-typed Go parameters -> index
-	params  map[string]*lparam   // discovered struct paths and globals, by Lean name
-	tvars   map[string]string
-	pre     []string
-	opt     bool
-	panics  bool
-	nloop   int
-	ntmp    int
-	aux     []string
-	brk     func() string
-	cont    func() string
-	slice   bool      // translating selected statements of a function: unknown locals become parameters
-	order   []*lparam // discovered parameters in discovery order
+	u         *Unit
+	pi        *pkgInfo
+	obj       *types.Func
+	sig       *Sig
+	names     map[types.Object]string
+	used      map[string]bool
+	scope     []lvar
+	structs   map[types.Object]int // struct-typed Go parameters -> index
+	params    map[string]*lparam   // discovered struct paths and globals, by Lean name
+	tvars     map[string]string
+	pre       []string
+	opt       bool
+	panics    bool
+	nloop     int
+	ntmp      int
+	aux       []string
+	brk       func() string
+	cont      func() string
+	muts      map[string]bool // parameters (Lean names) written through: xs[i] = v, PutUint*, mutator calls
+	needGas   bool
+	closure   int  // > 0 while translating a function literal
+	depth     int  // loop nesting depth
+	hasReturn bool // a return statement was translated inside the innermost loop body
+	foreign   map[types.Object]bool
+	flat      map[types.Object][]flatField // struct locals kept field by field
+	slice     bool                         // translating selected statements of a function: unknown locals become parameters
+	order     []*lparam                    // discovered parameters in discovery order
 }
 
 func (f *fn) fail(n ast.Node, format string, a ...any) {
@@ -192,6 +209,20 @@ func (f *fn) tyOf(t types.Type) ty {
 		return ty{k: kList, elem: &e, src: t}
 	case *types.Struct:
 		return ty{k: kStruct, st: b, src: t}
+	case *types.Signature: // a function value over integers / bools (a callback that may panic)
+		if b.Results().Len() == 1 && !b.Variadic() {
+			r := f.tyOf(b.Results().At(0).Type())
+			ft := ty{k: kFunc, elem: &r, src: t}
+			ok := r.k == kInt || r.k == kBool
+			for i := 0; i < b.Params().Len(); i++ {
+				a := f.tyOf(b.Params().At(i).Type())
+				ok = ok && (a.k == kInt || a.k == kBool)
+				ft.args = append(ft.args, a)
+			}
+			if ok {
+				return ft
+			}
+		}
 	}
 	return ty{k: kOpaque, src: t}
 }
@@ -204,8 +235,14 @@ func (f *fn) lean(t ty) string {
 		return "Bool"
 	case kList:
 		return "List " + paren(f.lean(*t.elem))
-	case kOpaque:
-		key := types.TypeString(t.src, nil)
+	case kFunc:
+		var as []string
+		for _, a := range t.args {
+			as = append(as, f.lean(a))
+		}
+		return strings.Join(append(as, "Option "+paren(f.lean(*t.elem))), " → ")
+	case kOpaque, kStruct:
+		key := tkey(t.src)
 		if _, ok := f.tvars[key]; !ok {
 			f.tvars[key] = fmt.Sprintf("α%d", len(f.tvars))
 		}
@@ -403,7 +440,7 @@ func (f *fn) param(name string, lp lparam) string {
 // free: in slice mode a local of the enclosing function that no selected statement defines is a parameter.
 func (f *fn) free(n ast.Node, o *types.Var) string {
 	t := f.tyOf(o.Type())
-	if t.k != kInt && t.k != kBool && t.k != kTime && t.k != kList {
+	if !leaf(t) && t.k != kOpaque && t.k != kStruct { // a free variable of foreign type is an opaque value
 		f.fail(n, "free variable %s has a type outside the fragment", o.Name())
 	}
 	name := f.fresh(o.Name())
@@ -464,6 +501,9 @@ func (f *fn) expr(e ast.Expr) string {
 		if v, ok := info.Uses[x.Sel].(*types.Var); ok && v.Pkg() != nil && v.Parent() == v.Pkg().Scope() {
 			return f.global(e, v)
 		}
+		if s, ok := f.field(x); ok {
+			return s
+		}
 		f.fail(e, "selector %s is outside the fragment", f.render(e))
 	case *ast.UnaryExpr:
 		t := f.typeOf(e)
@@ -501,12 +541,14 @@ func (f *fn) expr(e ast.Expr) string {
 			if x.High != nil {
 				hi = f.expr(x.High)
 			}
-			f.guard("0 ≤ " + lo + " ∧ " + lo + " ≤ " + hi + " ∧ " + hi + " ≤ Go.len " + xs)
+			f.guard("(0 : Int) ≤ " + lo + " ∧ " + lo + " ≤ " + hi + " ∧ " + hi + " ≤ Go.len " + xs)
 			return "Go.slice " + xs + " " + paren(lo) + " " + paren(hi)
 		}
 		f.fail(e, "slice expression outside the fragment")
 	case *ast.CallExpr:
 		return f.call(x, 1)
+	case *ast.FuncLit:
+		return f.funcLit(x)
 	}
 	f.fail(e, "expression %T is outside the fragment", e)
 	return ""
@@ -549,7 +591,7 @@ func (f *fn) arith(n ast.Node, op token.Token, ea, eb ast.Expr, t ty) string {
 			return a + " / " + pow2(int(cb.Int64()))
 		}
 		if f.typeOf(eb).signed {
-			f.guard("0 ≤ " + b)
+			f.guard("(0 : Int) ≤ " + b)
 		}
 		if op == token.SHL {
 			return wrap(t, "Go.shl "+a+" "+b)
@@ -588,6 +630,12 @@ func (f *fn) cond(e ast.Expr) string {
 			}
 			return paren(a) + map[token.Token]string{token.LAND: " ∧ ", token.LOR: " ∨ "}[x.Op] + paren(b)
 		case token.EQL, token.NEQ, token.LSS, token.LEQ, token.GTR, token.GEQ:
+			if id, ok := x.Y.(*ast.Ident); ok && id.Name == "nil" && (x.Op == token.EQL || x.Op == token.NEQ) {
+				if i, p, ord, ok := f.path(x.X); ok && p != "" { // s.ptr == nil: a Bool parameter `s_ptr_nil`
+					n := f.pathParam(x, i, p+".nil", ord, ty{k: kBool})
+					return n + map[token.Token]string{token.EQL: " = true", token.NEQ: " = false"}[x.Op]
+				}
+			}
 			ta, tb := f.typeOf(x.X), f.typeOf(x.Y)
 			if !(ta.k == tb.k && (ta.k == kInt || ta.k == kTime || (ta.k == kBool && (x.Op == token.EQL || x.Op == token.NEQ)))) {
 				f.fail(e, "comparison of values outside the fragment")
@@ -612,7 +660,7 @@ func (f *fn) cond(e ast.Expr) string {
 var intrinsics = map[string]string{
 	"time.UnixMilli": "Go.timeUnixMilli", "(time.Time).UTC": "id", "(time.Time).Sub": "Go.timeSub",
 	"(time.Time).UnixNano": "Go.timeUnixNano", "(time.Time).UnixMilli": "Go.timeToUnixMilli",
-	"(time.Time).Before": "<", "(time.Time).After": ">",
+	"(time.Time).Before": "<", "(time.Time).After": ">", "(time.Time).Add": "Go.timeAdd",
 }
 
 // call translates a call in expression position (nres = number of results the context accepts).
@@ -641,8 +689,22 @@ func (f *fn) call(x *ast.CallExpr, nres int) string {
 		}
 	}
 	switch c := callee.(type) {
+	case *types.Var: // a callback parameter: fn(x)
+		if t := f.tyOf(c.Type()); t.k == kFunc && f.names[c] != "" {
+			var as []string
+			for _, a := range args {
+				as = append(as, paren(f.expr(a)))
+			}
+			return f.bind(f.names[c] + " " + strings.Join(as, " "))
+		}
 	case *types.Builtin:
 		switch c.Name() {
+		case "make":
+			if t := f.typeOf(x); t.k == kList && len(args) == 2 && (t.elem.k == kInt || t.elem.k == kBool) {
+				n := paren(f.expr(args[1]))
+				f.guard("(0 : Int) ≤ " + n)
+				return "List.replicate (" + n + ").toNat " + map[kind]string{kInt: "(0 : Int)", kBool: "false"}[t.elem.k]
+			}
 		case "len":
 			if f.typeOf(args[0]).k == kList {
 				return "Go.len " + paren(f.expr(args[0]))
@@ -658,6 +720,12 @@ func (f *fn) call(x *ast.CallExpr, nres int) string {
 		}
 		f.fail(x, "builtin %s is outside the fragment here", c.Name())
 	case *types.Func:
+		if s, ok := f.special(x, c, args); ok {
+			return s
+		}
+		if s, ok := f.oracle(x, c, args); ok {
+			return s
+		}
 		if in, ok := intrinsics[c.FullName()]; ok {
 			var as []string
 			for _, a := range args {
@@ -669,25 +737,61 @@ func (f *fn) call(x *ast.CallExpr, nres int) string {
 			return in + " " + strings.Join(as, " ")
 		}
 		sig := f.u.translate(c)
-		if sig.NRes != nres {
-			f.fail(x, "call of %s yields %d values where %d are expected", c.Name(), sig.NRes, nres)
+		if sig.NRes != nres || len(sig.Muts) > 0 {
+			f.fail(x, "call of %s yields %d values (%d of them written slices) where %d are expected", c.Name(), sig.NRes, len(sig.Muts), nres)
 		}
+		return f.apply(x, c, sig, args)
+	}
+	f.fail(x, "call of %s is outside the fragment", f.render(x.Fun))
+	return ""
+}
+
+// apply builds the application of a translated function to the translated arguments (struct arguments by field
+// path, package-level variables and gas passed along); a callee that can panic is bound.
+func (f *fn) apply(x *ast.CallExpr, c *types.Func, sig *Sig, args []ast.Expr) string {
+	{
 		var as []string
+		var opq map[int]string
+		if sig.Fuel {
+			f.needGas = true
+			as = append(as, "gas")
+		}
 		for _, p := range sig.Params {
 			switch {
+			case p.src == -3: // the callee reads fields of opaque struct values: the caller provides the same accessors
+				as = append(as, f.accessor(x, p.accRoot, p.accPath, p.accTy))
+			case p.src == -4: // an oracle of the callee is an oracle of the caller
+				as = append(as, f.param(p.name, p))
 			case p.src < 0:
 				as = append(as, f.global(x, p.glob))
 			case p.path == "":
 				as = append(as, paren(f.expr(args[p.src])))
 			default:
+				if fl, name, isFlat := f.flatOf(args[p.src]); isFlat && name == "" && !strings.Contains(p.path, ".") {
+					as = append(as, f.flatVar(x, fl, p.path).lean)
+					continue
+				}
 				i, pp, ord, ok := f.path(args[p.src])
+				if !ok && !strings.HasSuffix(p.path, ".nil") { // an opaque struct value: read the field through an accessor
+					if opq == nil {
+						opq = map[int]string{}
+					}
+					if opq[p.src] == "" {
+						opq[p.src] = paren(f.expr(args[p.src]))
+					}
+					as = append(as, "("+f.accessor(x, f.pi.info.TypeOf(args[p.src]), strings.Split(p.path, "."), f.fieldType(args[p.src], p.order))+" "+opq[p.src]+")")
+					continue
+				}
 				if !ok {
 					f.fail(x, "struct argument of %s is not a parameter path", c.Name())
 				}
 				if pp != "" {
 					pp += "."
 				}
-				st := f.fieldType(args[p.src], p.order)
+				st := ty{k: kBool}
+				if !strings.HasSuffix(p.path, ".nil") {
+					st = f.fieldType(args[p.src], p.order)
+				}
 				as = append(as, f.pathParam(x, i, pp+p.path, append(append([]int{}, ord...), p.order...), st))
 			}
 		}
@@ -697,8 +801,6 @@ func (f *fn) call(x *ast.CallExpr, nres int) string {
 		}
 		return s
 	}
-	f.fail(x, "call of %s is outside the fragment", f.render(x.Fun))
-	return ""
 }
 
 // fieldType follows field indices from the (struct) type of e.
@@ -789,6 +891,10 @@ func (f *fn) lhs(e ast.Expr) (types.Object, bool) {
 		obj = f.pi.info.Uses[id]
 	}
 	if _, known := f.names[obj]; !known && f.pi.info.Defs[id] == nil {
+		if v, isVar := obj.(*types.Var); isVar && f.slice && v.Parent() != v.Pkg().Scope() {
+			f.free(e, v) // a statement slice updates a local it does not define: its old value is a parameter
+			return obj, true
+		}
 		f.fail(e, "assignment to %s which is not a local variable", id.Name)
 	}
 	return obj, true
@@ -805,14 +911,22 @@ func (f *fn) seq(list []ast.Stmt, k func() string) string {
 	case *ast.BlockStmt:
 		return f.block(s.List, memo(rest))
 	case *ast.ReturnStmt:
-		if len(s.Results) != f.sig.NRes {
+		f.hasReturn = true
+		if len(s.Results) != f.sig.NDecl {
 			f.fail(s, "return with %d values (named results are outside the fragment)", len(s.Results))
+		}
+		if len(s.Results) == 1 && f.sig.NRes == 1 && f.shortCircuit(s.Results[0]) { // a && b where b can panic
+			return f.branch(s.Results[0], func() string { return f.ret([]string{"true"}) }, func() string { return f.ret([]string{"false"}) })
 		}
 		var vals []string
 		for _, r := range s.Results {
-			vals = append(vals, f.expr(r))
+			if f.sig.StructRes != nil && f.closure == 0 {
+				vals = append(vals, f.structResult(r, f.sig.StructRes)...)
+			} else {
+				vals = append(vals, f.expr(r))
+			}
 		}
-		return f.takePre() + f.ret(vals)
+		return f.takePre() + f.ret(append(vals, f.mutVals()...))
 	case *ast.ExprStmt:
 		c := f.callee(s.X)
 		if has(f.u.Panics, c) {
@@ -821,6 +935,9 @@ func (f *fn) seq(list []ast.Stmt, k func() string) string {
 		}
 		if has(f.u.Ignore, c) {
 			return rest()
+		}
+		if call, ok := s.X.(*ast.CallExpr); ok {
+			return f.effect(call, rest)
 		}
 		f.fail(s, "statement %s is outside the fragment", f.render(s))
 	case *ast.DeclStmt:
@@ -837,6 +954,10 @@ func (f *fn) seq(list []ast.Stmt, k func() string) string {
 			for i, id := range vs.Names {
 				obj, t := f.pi.info.Defs[id], f.tyOf(f.pi.info.Defs[id].Type())
 				val := map[kind]string{kInt: "0", kBool: "false", kList: "[]"}[t.k]
+				if t.k == kStruct && len(vs.Values) == 0 {
+					todo = append(todo, func(r func() string) string { return f.newFlat(s, obj, map[string]string{}, r) })
+					continue
+				}
 				if i < len(vs.Values) {
 					val = f.expr(vs.Values[i])
 				} else if len(vs.Values) > 0 || val == "" {
@@ -852,6 +973,11 @@ func (f *fn) seq(list []ast.Stmt, k func() string) string {
 		}
 		return r()
 	case *ast.IncDecStmt:
+		if fl, name, ok := f.flatOf(s.X); ok && name != "" {
+			fv := f.flatVar(s, fl, name)
+			op := map[token.Token]string{token.INC: " + 1", token.DEC: " - 1"}[s.Tok]
+			return f.takePre() + "let " + fv.lean + " : " + f.lean(fv.t) + " := " + wrap(fv.t, fv.lean+op) + "\n" + rest()
+		}
 		obj, _ := f.lhs(s.X)
 		t := f.typeOf(s.X)
 		op := map[token.Token]string{token.INC: " + 1", token.DEC: " - 1"}[s.Tok]
@@ -864,30 +990,27 @@ func (f *fn) seq(list []ast.Stmt, k func() string) string {
 			inner.Init = nil
 			return f.block([]ast.Stmt{s.Init, &inner}, memo(rest))
 		}
-		c := f.cond(s.Cond)
-		pre := f.takePre()
 		kr := memo(rest)
-		a := f.block(s.Body.List, kr)
-		var b string
-		switch el := s.Else.(type) {
-		case nil:
-			b = kr()
-		case *ast.BlockStmt:
-			b = f.block(el.List, kr)
-		default:
-			b = f.block([]ast.Stmt{el}, kr)
-		}
-		if a == b {
-			return pre + a
-		}
-		return pre + "if " + c + " then\n" + indent(a) + "\nelse\n" + indent(b)
+		return f.branch(s.Cond, memo(func() string { return f.block(s.Body.List, kr) }), memo(func() string {
+			switch el := s.Else.(type) {
+			case nil:
+				return kr()
+			case *ast.BlockStmt:
+				return f.block(el.List, kr)
+			default:
+				return f.block([]ast.Stmt{el}, kr)
+			}
+		}))
 	case *ast.ForStmt:
 		if s.Init != nil {
 			inner := *s
 			inner.Init = nil
 			return f.block([]ast.Stmt{s.Init, &inner}, memo(rest))
 		}
-		return f.forLoop(s, memo(rest))
+		if f.counting(s) {
+			return f.forLoop(s, memo(rest))
+		}
+		return f.whileLoop(s, memo(rest))
 	case *ast.RangeStmt:
 		return f.rangeLoop(s, memo(rest))
 	case *ast.BranchStmt:
@@ -903,6 +1026,14 @@ func (f *fn) seq(list []ast.Stmt, k func() string) string {
 }
 
 func (f *fn) assign(s *ast.AssignStmt, rest func() string) string {
+	if ix, ok := s.Lhs[0].(*ast.IndexExpr); ok && len(s.Lhs) == 1 && len(s.Rhs) == 1 { // xs[i] = v, xs[i] op= v
+		return f.setIndex(s, ix, rest)
+	}
+	if len(s.Lhs) == 1 && len(s.Rhs) == 1 {
+		if r, ok := f.structAssign(s, rest); ok {
+			return r
+		}
+	}
 	if s.Tok != token.DEFINE && s.Tok != token.ASSIGN { // x op= e
 		ops := map[token.Token]token.Token{token.ADD_ASSIGN: token.ADD, token.SUB_ASSIGN: token.SUB, token.MUL_ASSIGN: token.MUL,
 			token.QUO_ASSIGN: token.QUO, token.REM_ASSIGN: token.REM, token.SHL_ASSIGN: token.SHL, token.SHR_ASSIGN: token.SHR,
@@ -963,157 +1094,6 @@ func (f *fn) lets(lhs []ast.Expr, vals []string, rest func() string) string {
 	return f.let(obj, f.tyOf(obj.Type()), vals[0], func() string { return f.lets(lhs[1:], vals[1:], rest) })
 }
 
-// assigned collects the variables assigned anywhere under n.
-func (f *fn) assigned(n ast.Node) map[types.Object]bool {
-	res := map[types.Object]bool{}
-	add := func(e ast.Expr) {
-		if id, ok := e.(*ast.Ident); ok {
-			if o := f.pi.info.Uses[id]; o != nil {
-				res[o] = true
-			}
-		}
-	}
-	ast.Inspect(n, func(x ast.Node) bool {
-		switch y := x.(type) {
-		case *ast.AssignStmt:
-			for _, l := range y.Lhs {
-				add(l)
-			}
-		case *ast.IncDecStmt:
-			add(y.X)
-		}
-		return true
-	})
-	return res
-}
-
-func (f *fn) mentions(n ast.Node, objs map[types.Object]bool) bool {
-	hit := false
-	ast.Inspect(n, func(x ast.Node) bool {
-		if id, ok := x.(*ast.Ident); ok && objs[f.pi.info.Uses[id]] {
-			hit = true
-		}
-		return true
-	})
-	return hit
-}
-
-// loopDef emits `def <fn>_loopN` : the loop from its head on, including the code after it.  first is the type of
-// the argument the recursion runs on ("Nat" fuel or the list), pats the two patterns for it, body builds the
-// non-base case given the recursive call.
-func (f *fn) loopDef(mod map[types.Object]bool, first string, basePat, stepPat string, recArg string, after func() string,
-	body func(rec string, exit func() string) string) (call func(arg string) string) {
-	name := fmt.Sprintf("%s_loop%d", f.sig.Name, f.nloop)
-	f.nloop++
-	var fixed, fixedArgs, vary, varyTypes []string
-	for _, tv := range f.sig.TVars {
-		fixed = append(fixed, "{"+tv+" : Type}")
-	}
-	goParams := map[string]bool{}
-	for _, p := range f.sig.Params {
-		fixed = append(fixed, "("+p.name+" : "+p.ltype+")")
-		fixedArgs = append(fixedArgs, p.name)
-		goParams[p.name] = true
-	}
-	for _, v := range f.scope { // a Go parameter assigned in the loop travels as a varying argument that shadows it
-		switch {
-		case mod[v.obj]:
-			vary = append(vary, v.name)
-			varyTypes = append(varyTypes, v.ltype)
-		case !goParams[v.name]:
-			fixed = append(fixed, "("+v.name+" : "+v.ltype+")")
-			fixedArgs = append(fixedArgs, v.name)
-		}
-	}
-	head := strings.TrimSpace(name + " " + strings.Join(fixedArgs, " "))
-	rec := strings.TrimSpace(head + " " + recArg + " " + strings.Join(vary, " "))
-	saved := append([]lvar{}, f.scope...)
-	exitText := after() // translated first, in the scope of the loop head; loops that follow are emitted before this one
-	f.scope = append([]lvar{}, saved...)
-	step := body(rec, func() string { return exitText })
-	f.scope = saved
-	pats := func(p string) string { return strings.Join(append([]string{p}, vary...), ", ") }
-	def := fmt.Sprintf("def %s %s : %s → %s\n  | %s =>\n%s\n  | %s =>\n%s\n", name, strings.Join(fixed, " "),
-		strings.Join(append([]string{first}, varyTypes...), " → "), f.sig.resType(), pats(basePat), indent(indent(exitText)),
-		pats(stepPat), indent(indent(step)))
-	f.aux = append(f.aux, def)
-	return func(arg string) string {
-		return strings.TrimSpace(head + " " + paren(arg) + " " + strings.Join(vary, " "))
-	}
-}
-
-func (f *fn) inLoop(brk, cont func() string, run func() string) string {
-	ob, oc := f.brk, f.cont
-	f.brk, f.cont = brk, cont
-	defer func() { f.brk, f.cont = ob, oc }()
-	return run()
-}
-
-// forLoop: `for ; i < b; i++ { body }` (also <=, and >, >= with i--), bound not assigned in the body.
-func (f *fn) forLoop(s *ast.ForStmt, after func() string) string {
-	be, _ := s.Cond.(*ast.BinaryExpr)
-	post, _ := s.Post.(*ast.IncDecStmt)
-	if be == nil || post == nil {
-		f.fail(s, "loop shape outside the fragment (want `for i := a; i < b; i++`)")
-	}
-	iv, _ := be.X.(*ast.Ident)
-	pid, _ := post.X.(*ast.Ident)
-	if iv == nil || pid == nil || f.pi.info.Uses[iv] != f.pi.info.Uses[pid] || f.typeOf(iv).k != kInt {
-		f.fail(s, "loop counter outside the fragment")
-	}
-	up := map[token.Token]bool{token.LSS: true, token.LEQ: true}[be.Op] && post.Tok == token.INC
-	down := map[token.Token]bool{token.GTR: true, token.GEQ: true}[be.Op] && post.Tok == token.DEC
-	mod := f.assigned(s.Body)
-	iobj := f.pi.info.Uses[iv]
-	if !(up || down) || mod[iobj] || f.mentions(be.Y, mod) || f.mentions(be.Y, map[types.Object]bool{iobj: true}) {
-		f.fail(s, "loop bound or counter is assigned in the loop body")
-	}
-	mod[iobj] = true
-	i, b := f.expr(iv), paren(f.expr(be.Y))
-	c := f.cond(s.Cond)
-	if len(f.pre) > 0 {
-		f.fail(s, "loop condition can panic")
-	}
-	fuel := map[token.Token]string{token.LSS: b + " - " + i, token.LEQ: b + " + 1 - " + i, token.GTR: i + " - " + b, token.GEQ: i + " + 1 - " + b}[be.Op]
-	call := f.loopDef(mod, "Nat", "0", "fuel + 1", "fuel", after, func(rec string, exit func() string) string {
-		next := memo(func() string { return f.seq([]ast.Stmt{post}, func() string { return rec }) })
-		body := f.inLoop(exit, next, func() string { return f.block(s.Body.List, next) })
-		return "if " + c + " then\n" + indent(body) + "\nelse\n" + indent(exit())
-	})
-	return call("(" + fuel + ").toNat")
-}
-
-// rangeLoop: `for _, x := range xs { body }`, xs not assigned in the body.
-func (f *fn) rangeLoop(s *ast.RangeStmt, after func() string) string {
-	if k, ok := s.Key.(*ast.Ident); s.Key != nil && (!ok || k.Name != "_") || s.Tok != token.DEFINE && s.Value != nil {
-		f.fail(s, "range loop shape outside the fragment (want `for _, x := range xs`)")
-	}
-	t := f.typeOf(s.X)
-	mod := f.assigned(s.Body)
-	if t.k != kList || f.mentions(s.X, mod) {
-		f.fail(s, "range over something that is not an unmodified slice")
-	}
-	xs := f.expr(s.X)
-	if len(f.pre) > 0 {
-		f.fail(s, "range expression can panic")
-	}
-	x := "_"
-	base := len(f.scope)
-	if id, ok := s.Value.(*ast.Ident); ok && id.Name != "_" {
-		x = f.declare(f.pi.info.Defs[id], *t.elem)
-	}
-	elemVar := append([]lvar{}, f.scope[base:]...)
-	f.scope = f.scope[:base]
-	tl := f.fresh("tl")
-	call := f.loopDef(mod, f.lean(t), "[]", x+" :: "+tl, tl, after, func(rec string, exit func() string) string {
-		next := func() string { return rec }
-		f.scope = append(f.scope, elemVar...)
-		defer func() { f.scope = f.scope[:base] }()
-		return f.inLoop(exit, next, func() string { return f.block(s.Body.List, next) })
-	})
-	return call(xs)
-}
-
 // ---------------------------------------------------------------- functions
 
 func (u *Unit) translate(obj *types.Func) *Sig {
@@ -1133,15 +1113,20 @@ func (u *Unit) translate(obj *types.Func) *Sig {
 	for pass := 1; pass <= 2; pass++ {
 		prev := f
 		f = &fn{u: u, pi: pi, obj: obj, names: map[types.Object]string{}, used: map[string]bool{}, structs: map[types.Object]int{},
-			params: map[string]*lparam{}, tvars: map[string]string{}, opt: true, sig: &Sig{}}
+			params: map[string]*lparam{}, tvars: map[string]string{}, opt: true, sig: &Sig{}, muts: map[string]bool{}, foreign: map[types.Object]bool{}, flat: map[types.Object][]flatField{}}
 		if prev != nil {
-			f.opt = prev.panics
+			f.opt, f.muts, f.needGas = prev.panics, prev.muts, prev.needGas
 		}
 		f.header(decl, prev)
 		body = f.block(decl.Body.List, func() string {
-			f.fail(decl, "control can reach the end of the function")
-			return ""
+			if f.sig.NDecl > 0 {
+				f.fail(decl, "control can reach the end of the function")
+			}
+			return f.ret(f.mutVals())
 		})
+		if pass == 2 && f.sig.NRes == 0 {
+			f.fail(decl, "function without a result that writes to none of its slice parameters")
+		}
 	}
 	u.emit(f, decl, body, "")
 	u.sigs[obj] = f.sig
@@ -1159,6 +1144,9 @@ func (u *Unit) emit(f *fn, decl *ast.FuncDecl, body, note string) {
 	var ps []string
 	for _, tv := range f.sig.TVars {
 		ps = append(ps, "{"+tv+" : Type}")
+	}
+	if f.sig.Fuel {
+		ps = append(ps, "(gas : Nat)")
 	}
 	for _, p := range f.sig.Params {
 		ps = append(ps, "("+p.name+" : "+p.ltype+")")
@@ -1191,16 +1179,33 @@ func (f *fn) header(decl *ast.FuncDecl, prev *fn) {
 	var res []string
 	for i := 0; i < sg.Results().Len(); i++ {
 		t := f.tyOf(sg.Results().At(i).Type())
+		if t.k == kStruct && sg.Results().Len() == 1 { // a struct result: the tuple of its fields
+			f.sig.StructRes = t.st
+			for j := 0; j < t.st.NumFields(); j++ {
+				ft := f.tyOf(t.st.Field(j).Type())
+				if !leaf(ft) {
+					f.fail(decl, "field %s of the result has a type outside the fragment", t.st.Field(j).Name())
+				}
+				res = append(res, f.lean(ft))
+			}
+			continue
+		}
 		if t.k == kStruct || t.k == kBad {
 			f.fail(decl, "result type outside the fragment")
 		}
 		res = append(res, f.lean(t))
 	}
-	if f.sig.NRes = len(res); f.sig.NRes == 0 {
-		f.fail(decl, "function without a result")
-	}
-	f.sig.Res = strings.Join(res, " × ")
-	f.sig.Opt = f.opt
+	f.sig.NDecl, f.sig.Opt, f.sig.Fuel = sg.Results().Len(), f.opt, f.needGas
+	f.used["gas"] = true
+	defer func() { // the slice parameters written to (known from pass 1) are returned after the declared results
+		for i, p := range f.sig.Params {
+			if f.muts[p.name] {
+				f.sig.Muts = append(f.sig.Muts, i)
+				res = append(res, p.ltype)
+			}
+		}
+		f.sig.NRes, f.sig.Res = len(res), strings.Join(res, " × ")
+	}()
 	f.used[f.sig.Name] = true
 	var found []*lparam
 	if prev != nil {
@@ -1209,11 +1214,14 @@ func (f *fn) header(decl *ast.FuncDecl, prev *fn) {
 		}
 		sort.Slice(found, func(i, j int) bool {
 			a, b := found[i], found[j]
-			if a.src != b.src {
-				return a.src >= 0 && (b.src < 0 || a.src < b.src)
+			if a.src < 0 || b.src < 0 { // package-level variables, accessors, oracles: after the Go parameters, by name
+				if a.src < 0 && b.src < 0 {
+					return a.name < b.name
+				}
+				return b.src < 0
 			}
-			if a.src < 0 {
-				return a.name < b.name
+			if a.src != b.src {
+				return a.src < b.src
 			}
 			return fmt.Sprint(a.order) < fmt.Sprint(b.order)
 		})
@@ -1233,11 +1241,8 @@ func (f *fn) header(decl *ast.FuncDecl, prev *fn) {
 			}
 		case kBad:
 			f.fail(decl, "parameter %s has a type outside the fragment", v.Name())
-		case kOpaque:
-			if v.Name() == "" || v.Name() == "_" || !f.usedIn(decl, v) {
-				continue // an unused parameter of foreign type (context, stopwatch, ...) is dropped
-			}
-			f.fail(decl, "parameter %s has a type outside the fragment", v.Name())
+		case kOpaque: // a parameter of foreign type (context, stopwatch, an interface): dropped; using it as a value is refused
+			f.foreign[v] = true
 		default:
 			n := f.declare(v, t)
 			f.sig.Params = append(f.sig.Params, lparam{name: n, ltype: f.lean(t), src: i})
@@ -1259,10 +1264,6 @@ func (f *fn) header(decl *ast.FuncDecl, prev *fn) {
 		f.sig.TVars = append(f.sig.TVars, v)
 	}
 	sort.Strings(f.sig.TVars)
-}
-
-func (f *fn) usedIn(decl *ast.FuncDecl, v *types.Var) bool {
-	return f.mentions(decl.Body, map[types.Object]bool{v: true})
 }
 
 // ---------------------------------------------------------------- statement slices
@@ -1309,15 +1310,27 @@ func (u *Unit) Slice(pkgRel, recv, name, leanName string, pats []string) (sig *S
 	}
 	sort.Slice(sel, func(i, j int) bool { return sel[i].Pos() < sel[j].Pos() })
 	last := sel[len(sel)-1]
+	switch x := last.(type) { // a selected `if` / `for` stands for its condition
+	case *ast.IfStmt:
+		if x.Init == nil {
+			last = &ast.ReturnStmt{Return: x.Pos(), Results: []ast.Expr{x.Cond}}
+		}
+	case *ast.ForStmt:
+		if x.Init == nil && x.Cond != nil {
+			last = &ast.ReturnStmt{Return: x.Pos(), Results: []ast.Expr{x.Cond}}
+		}
+	}
+	sel[len(sel)-1] = last
 	var f *fn
 	var body string
 	for pass := 1; pass <= 2; pass++ {
 		prev := f
 		f = &fn{u: u, pi: pi, obj: obj, names: map[types.Object]string{}, used: map[string]bool{leanName: true}, structs: map[types.Object]int{},
-			params: map[string]*lparam{}, tvars: map[string]string{}, opt: true, slice: true, sig: &Sig{Name: leanName, NRes: 1}}
+			params: map[string]*lparam{}, tvars: map[string]string{}, opt: true, slice: true, sig: &Sig{Name: leanName, NRes: 1, NDecl: 1},
+			muts: map[string]bool{}, foreign: map[types.Object]bool{}, flat: map[types.Object][]flatField{}}
 		var resT []ty
 		if r, ok := last.(*ast.ReturnStmt); ok {
-			f.sig.NRes = len(r.Results)
+			f.sig.NRes, f.sig.NDecl = len(r.Results), len(r.Results)
 			for _, e := range r.Results {
 				resT = append(resT, f.typeOf(e))
 			}
